@@ -955,6 +955,11 @@ class Evaluator:
         if m == "from" and len(args) == 1 and name.startswith("<T as std::convert::From<T>>"):
             return args[0]
         if self._is_pure(name):
+            # a NEW pure predicate (not a function of the pinned tree) whose body is one expression is that expression:
+            #   fn is_claimed(state, k) -> bool { state.active_mappings.iter().any(|m| m.from.contains(k) || m.to.contains(k)) }
+            v = self._new_pure_value(name, args)
+            if v is not None:
+                return v
             # the same pure predicate asked about the same arguments is ONE atom, wherever it is asked
             return T("call", name, args, None)
         if m in ("any", "all", "find", "position", "rposition") and "Iterator" in name and len(args) == 2 and isinstance(args[1], tuple) and args[1] and args[1][0] == "closure" \
@@ -962,6 +967,36 @@ class Evaluator:
             # xs.iter().any(|x| pure(x, captures)) is a function of xs and the captures
             return T("call", name, args, None)
         return T("call", name, args, blk)
+
+    def _new_pure_value(self, name, args):
+        facts = self.body.facts
+        if not Walker.AUTO_INLINE or facts is None or name not in facts.bodies or "{closure" in name or self.depth > 3:
+            return None
+        from . import splice
+        known = splice.known_functions()
+        if not known or name in known:
+            return None
+        key = ("purevalue", id(facts), name)
+        if key not in _CLOSURE_BODIES:
+            val = None
+            try:
+                cb = _closure_body(facts, name)
+                if not cb.loops() and len(cb.blocks) <= 40:
+                    ps = [p for p in Walker(cb, max_paths=50, depth=self.depth + 1).walk(0) if p.outcome[0] not in ("unreachable", "infeasible")]
+                    if len(ps) == 1 and ps[0].outcome[0] == "return" and not [e for e in ps[0].events if e.kind in ("guard", "store", "loop")] \
+                            and not [e for e in ps[0].events if e.kind == "call" and e.d]:
+                        val = (ps[0].outcome[1], cb)
+            except Exception:
+                val = None
+            _CLOSURE_BODIES[key] = val
+        val = _CLOSURE_BODIES[key]
+        if val is None:
+            return None
+        r, cb = val
+        if not isinstance(r, tuple):
+            return r
+        m = {T("param", i + 1, cb.dbg.get(i + 1, "")): a for i, a in enumerate(args)}
+        return subst(r, m)
 
     def _closure_is_pure(self, path):
         facts = self.body.facts
@@ -1899,6 +1934,30 @@ def closure_upvar_map(closure_body, closure_term):
     return m
 
 
+_FN_CALL = re.compile(r"Fn(Mut|Once)?<.*>>::call(_mut|_once)?$|^std::ops::Fn(Mut|Once)?::call(_mut|_once)?$|^core::ops::function::Fn(Mut|Once)?::call(_mut|_once)?$")
+
+
+def _apply_closure_values(t, facts, depth=0):
+    """a closure that reached this point as a VALUE (a `pred: impl Fn(&T) -> bool` parameter of a helper that has been
+    copied into its caller) and is called there:  pred(x)  with pred = |m| m.to.contains(&k)  is  x.to.contains(&k).
+    Only single-expression closures (one path, no branch, no write) are applied; anything else stays a call."""
+    if not isinstance(t, tuple) or not t or facts is None or depth > 4:
+        return t
+    t = tuple(_apply_closure_values(x, facts, depth) if isinstance(x, tuple) else x for x in t)
+    if t[0] == "call" and len(t) > 2 and isinstance(t[1], str) and _FN_CALL.search(t[1]) and len(t[2]) == 2:
+        clos, args = strip(t[2][0]), t[2][1]
+        if isinstance(clos, tuple) and clos and clos[0] == "closure" and clos[1] in facts.bodies and isinstance(args, tuple) and args and args[0] == "tuple":
+            try:
+                cps, cb = walk_closure(lambda p_: _closure_body(facts, p_), clos, param_terms=list(args[1]))
+            except Exception:
+                return t
+            live = [q for q in cps if q.outcome[0] not in ("unreachable", "infeasible")]
+            if len(live) == 1 and live[0].outcome[0] == "return" and not [e for e in live[0].events if e.kind in ("guard", "store", "loop")] \
+                    and not [e for e in live[0].events if e.kind == "call" and e.d]:
+                return _apply_closure_values(live[0].outcome[1], facts, depth + 1) if isinstance(live[0].outcome[1], tuple) else live[0].outcome[1]
+    return t
+
+
 def walk_closure(facts_bodies, closure_term, param_terms=None):
     """walk a closure body; returns (paths, body) with upvars replaced by the captured terms and
     parameters (from index 2) replaced by param_terms"""
@@ -1920,7 +1979,8 @@ def walk_closure(facts_bodies, closure_term, param_terms=None):
         if not isinstance(x, tuple):
             return x
         y = subst(x, m)
-        return _closure_fields(y, facts) if sibs else y
+        y = _closure_fields(y, facts) if sibs else y
+        return _apply_closure_values(y, facts)
     for p in paths:
         evs = []
         for e in p.events:
